@@ -12,6 +12,7 @@ import (
 	"sort"
 	"strings"
 
+	"golang.org/x/tools/go/callgraph"
 	"golang.org/x/tools/go/packages"
 	"golang.org/x/tools/go/ssa"
 	"golang.org/x/tools/go/ssa/ssautil"
@@ -32,6 +33,7 @@ type Prog struct {
 	fnIdx  map[string]*ssa.Function  // short name -> function (repo functions incl. anonymous)
 	allFns []*ssa.Function           // every repo function with a body (incl. anonymous, incl. instantiations)
 	astFn  map[*ssa.Function]ast.Node
+	cg     *callgraph.Graph
 }
 
 type toolError struct{ msg string }
